@@ -62,7 +62,7 @@ MIKA_CLOSE = "⸥"
 ALPHABET = (OPS * 2 + BRACKETS_OPEN + BRACKETS_CLOSE * 2 + KEYWORDS + DIGITS + IDENTS * 2 + QUOTES + HASHES + NEWLINES * 3 + BOX + EMOJI
             + COMBINING + CONTROL + MIKA)
 
-MAX_OPEN = 4    # random streams keep the bracket nesting depth small: nested brackets cost ~4x per level (finding exp-nesting)
+MAX_OPEN = 3    # random streams keep the bracket nesting depth small: nested brackets cost ~4x per level (finding exp-nesting)
 OPEN_CH = "([{"
 CLOSE_CH = ")]}"
 
@@ -77,17 +77,20 @@ def nest_depth(s):
     return m
 
 
-def cap_nesting(s, limit=MAX_OPEN):
-    """Drop opening brackets that would push the naive nesting depth above `limit`."""
+def cap_nesting(s, limit=MAX_OPEN, limit_sq=2):
+    """Drop opening brackets that would push the naive nesting depth above `limit` (above `limit_sq` for [ and {,
+    which cost ~7x per level)."""
     out = []
-    d = 0
+    stack = []
     for ch in s:
         if ch in OPEN_CH:
-            if d >= limit:
+            sq = sum(1 for c in stack if c in "[{")
+            if len(stack) >= limit or (ch in "[{" and sq >= limit_sq):
                 continue
-            d += 1
+            stack.append(ch)
         elif ch in CLOSE_CH:
-            d = max(0, d - 1)
+            if stack:
+                stack.pop()
         out.append(ch)
     return "".join(out)
 
@@ -249,7 +252,7 @@ def generate(tier, rng):
     def emit(text, **tags):
         if MIKA_CLOSE in text and tags.get("stream") not in ("mika-close",):
             text = text.replace(MIKA_CLOSE, "⸢")            # stray closes hang (finding mika-close-loop): only the dedicated stream has them
-        if tags.get("stream") not in ("nest", "mec-whole", "mec-prefix"):
+        if tags.get("stream") not in ("nest", "mec-whole", "mec-prefix", "fence"):
             text = cap_nesting(text)
         if text in seen:
             return None
@@ -322,6 +325,21 @@ def generate(tier, rng):
         npre, cap = (60, 2500) if quick else (300, 12000)
         for k in prefix_positions(t, rng, npre, cap):
             add(emit(t[:k], stream="mec-prefix", file=os.path.relpath(p, REPO)))
+
+    # (6) fenced code blocks: mech blocks with good / broken code (finding fence-zero-range), ebnf blocks (finding ebnf-todo-panic)
+    fence_tags = ["mech", "mec", "🤖", "mech:disabled", "mech:hidden", "mech:ns1", "mech {output: false}", "python", "", "ebnf", "eq", "mermaid", "mech:" ]
+    bodies = ["x := 1", "x := 1\ny := x + 1", "<=", "x := (", ")", "x := [1 2", "a := b ;", "foo", "", "x = = 1", "-- c", "x := \"a", "1 +", "⸢", "y := [1 2; 3]"]
+    nf = 0
+    for ft in fence_tags:
+        for b in bodies:
+            for sig in ("```", "~~~"):
+                if quick and rng.random() < 0.55:
+                    continue
+                pre = rng.choice(["", "x := 1\n", "# T\n\npara\n\n", "\n"])
+                post = rng.choice(["", "\n", "\ny := 2\n", "\n\ntext (\n"])
+                close = rng.choice([sig, sig, sig, "", sig[:2]])
+                add(emit(pre + sig + ft + "\n" + b + "\n" + close + post, stream="fence", tag=ft.split(":")[0].split(" ")[0] or "none"))
+                nf += 1
 
     # (5) nesting ladders (cost grows ~4x per level; deep ones exceed the budget: finding exp-nesting) and stray mika closes
     for (o, c) in (("(", ")"), ("[", "]"), ("{", "}")):
